@@ -134,3 +134,7 @@ def c_update_psd(ctx, it, cfg):
 # the stored distribution and the grid it refers to stay aligned when the grid is extended during a step (bounded stand-in shared with C08)
 from . import c08 as _c08
 REG.contracts.append(_c08.c_add_history.contract)
+
+# the distribution advances with the rate AFTER the model's flux-limiting correction (solver side of the same step)
+from . import c06 as _c06
+REG.contracts.append(_c06.c_updatex.contract)
